@@ -100,7 +100,9 @@ func (g *ExprGen) sp() string {
 	return " "
 }
 
-func (g *ExprGen) intLit() string { return fmt.Sprint(g.R.PickInt([]int{0, 1, 2, 3, 4, 5, 7, 10, 12, 100})) }
+func (g *ExprGen) intLit() string {
+	return fmt.Sprint(g.R.PickInt([]int{0, 1, 2, 3, 4, 5, 7, 10, 12, 100}))
+}
 
 func (g *ExprGen) strLit() string {
 	s := g.R.Pick([]string{"", "a", "ab", "abc", "b", "hello", "x y", "it''s", "Ab"})
